@@ -18,6 +18,7 @@ import sys
 
 from common import codes, uncodes, ddmin
 import tokutil
+import c03_guard as G
 
 OPS = ['call', 'peek', 'push']
 
@@ -64,8 +65,25 @@ def _data(c):
     return list(chunks)
 
 
+CALL_LIMIT_S = 2.0
+
+
 def run_call(classes, c):
-    """One call on the implementation -> JSON-able observation."""
+    """One call on the implementation -> JSON-able observation; under the wall-clock watchdog (the token loops below
+    are bounded by the proved n+2 tokens, the watchdog covers loops inside a single call)."""
+    try:
+        with G.limit(CALL_LIMIT_S):
+            return _run_call(classes, c)
+    except G.Watchdog:
+        return {'exc': f'no result within {CALL_LIMIT_S} s', 'hang': True}
+
+
+def hangs(r):
+    """Did this result of a call show non-termination (token budget or watchdog)?"""
+    return bool(r.get('hang')) or str(r.get('exc', '')).startswith('no EOF or error')
+
+
+def _run_call(classes, c):
     Tokenizer, TSE = classes
     kw = dict(zip(tokutil.OPT_NAMES, c['opts']))
     try:
